@@ -16,6 +16,10 @@ CLAIMED = {
          "Decides the ordering clauses of the durability statement on every CFG path: data fsync -> close -> rename -> directory fsync in the single-font writer; per-directory typestate (rename dirties both directories, a successful sync*Directories naming them cleans them) in the batch publishers; default operation-table bindings reach (*os.File).Sync / os.Rename and propagate their errors; no call site discards a sync/close/rename error. This is the whole statement except what the kernel does on fsync — ordering is exactly what a must-pass-through analysis decides, and no test can observe it on a live filesystem.",
          "Assumes POSIX fsync/rename semantics; on Windows SyncDirectory is a documented no-op (assumption). Panics between the calls are C01's subject. Trusted: go/ssa CFGs, the error-kind classifier (flow.go) and the field/function names in c07.go.",
          "must-pass-through dataflow on SSA CFGs with success-edge facts; per-directory typestate; operation-table binding resolution", "DESIGN.md §4 C07"),
+ "C30": ("other",
+         "Decides the egress policy's structural clauses: closed world of http.Client/Transport construction and of calls returning net.Conn; provenance of every client used for Get/Post/Do; shape of the guarded transport (DialContext = guarded factory, Proxy nil, no other dial hook) and client (guarded transport, validating CheckRedirect); dial gate in each guarded dial closure (split -> lookup -> validator on that lookup result dominate every dial; the dialled address is JoinHostPort of a validated IP, never the host name); exhaustive 64-row truth table of the blocked-address predicates over the six net.IP classifiers; validators inspect every DNS answer and only the revocation validator may exit early, on allowed[normalizeRevocationHost(host)]; URL gates (scheme, credentials) before every fetch. Quantifies over all paths and all call sites, which is what redirect chains / mixed answer sets exercise and tests do not.",
+         "Assumes net/http dials only through Transport.DialContext when Proxy and DialTLS* are unset, and std-lib semantics of the net.IP classifiers (IPv4-mapped, zoned literals). The opt-in link validator (validate.checkForBrokenLinks) is exempt with reason: not one of the fetch kinds the property enumerates.",
+         "who-may-construct/call tables, value provenance tracing, must-pass-through dataflow, truth-table extraction by CFG evaluation", "DESIGN.md §4 C30"),
 }
 
 # id -> reason (properties not claimed). PENDING entries are planned in DESIGN.md but the
